@@ -145,7 +145,7 @@ def run(ctx_):
         err = emit(ctx_["idlc"], root)
         if err:
             return b, {"emit_failed": err}
-        return b, build(root, methods, sides=SIDES if b != DUP else ["c", "rust"])
+        return b, build(root, methods, sides=SIDES)
 
     with ThreadPoolExecutor(max_workers=vlib.NCPU) as ex:
         results = dict(ex.map(do, range(len(batches))))
@@ -198,8 +198,6 @@ def run(ctx_):
         for ci, caller in enumerate(SIDES):
             scs = l2obj.scenarios(methods, NVAL, caller)
             for ii, impl in enumerate(SIDES):
-                if b == DUP and "cpp" in (caller, impl):
-                    continue
                 recs = runs.get((caller, impl))
                 if recs is None or len(recs) != 3 * len(scs) or any(x["tag"] == "junk" for x in recs):
                     res["failures"].append({"property": prop, "idl": idl, "pairing": "%s stub -> %s skeleton" % (caller, impl),
